@@ -56,6 +56,29 @@ TEMPLATES = [
     ("sparksql_insert_overwrite", "sparksql", "INSERT OVERWRITE {a} SELECT * FROM {b} JOIN {c} ON {b}.id = {c}.id"),
     ("bigquery_merge", "bigquery", "MERGE {a} t USING {b} s ON t.id = s.id WHEN MATCHED THEN UPDATE SET c1 = s.c1"),
     ("qualifier_is_used_schema", "ansi", "INSERT INTO {a} SELECT * FROM used.tab JOIN {b} ON used.tab.id = {b}.id"),
+    # mixed qualification at every two-table site: one operand already qualified (must be unaffected), the other bare
+    ("mixed_rename_old_qualified", "ansi", "INSERT INTO q.old SELECT * FROM {b}; ALTER TABLE q.old RENAME TO {a}"),
+    ("mixed_rename_new_qualified", "ansi", "INSERT INTO {a} SELECT * FROM {b}; ALTER TABLE {a} RENAME TO q.renamed"),
+    ("mixed_rename_old_qualified_legacy", "non-validating", "INSERT INTO q.old SELECT * FROM {b}; ALTER TABLE q.old RENAME TO {a}"),
+    ("mixed_rename_new_qualified_legacy", "non-validating", "INSERT INTO {a} SELECT * FROM {b}; ALTER TABLE {a} RENAME TO q.renamed"),
+    ("mixed_rename_multi_mysql", "mysql", "INSERT INTO q.old SELECT * FROM {b}; RENAME TABLE q.old TO {a}, {c} TO q.other"),
+    ("mixed_insert_qualified_target", "ansi", "INSERT INTO q.out SELECT c1, c2 FROM {a} JOIN q.fixed ON {a}.id = q.fixed.id"),
+    ("mixed_ctas_qualified_source", "ansi", "CREATE TABLE {a} AS SELECT * FROM q.fixed"),
+    ("mixed_create_like", "ansi", "CREATE TABLE {a} LIKE q.fixed"),
+    ("mixed_create_like_rev", "ansi", "CREATE TABLE q.copy LIKE {a}"),
+    ("mixed_merge_qualified_target", "ansi", "MERGE INTO q.tgt USING {a} ON q.tgt.id = {a}.id WHEN MATCHED THEN UPDATE SET c1 = {a}.c1"),
+    ("mixed_merge_qualified_source", "ansi", "MERGE INTO {a} USING q.src ON {a}.id = q.src.id WHEN MATCHED THEN UPDATE SET c1 = q.src.c1"),
+    ("mixed_update_from", "ansi", "UPDATE {a} SET c1 = q.src.c1 FROM q.src WHERE {a}.id = q.src.id"),
+    ("mixed_exchange_partition_hive", "hive", "ALTER TABLE q.part EXCHANGE PARTITION (p='1') WITH TABLE {a}"),
+    ("mixed_exchange_partition_hive_rev", "hive", "ALTER TABLE {a} EXCHANGE PARTITION (p='1') WITH TABLE q.part"),
+    ("mixed_swap_snowflake", "snowflake", "ALTER TABLE q.live SWAP WITH {a}"),
+    ("mixed_clone_snowflake", "snowflake", "CREATE TABLE {a} CLONE q.orig"),
+    ("mixed_select_into_postgres", "postgres", "SELECT c1 INTO {a} FROM q.fixed"),
+    ("mixed_vertica_swap", "vertica", "SELECT swap_partitions_between_tables('q.staging', 'min-range-value', 'max-range-value', '{a}')"),
+    ("mixed_drop", "ansi", "INSERT INTO q.out SELECT * FROM {a}; DROP TABLE {a}"),
+    ("mixed_chain", "ansi", "CREATE TABLE q.mid AS SELECT c1 AS k1 FROM {a}; INSERT INTO {b} SELECT k1 FROM q.mid"),
+    ("mixed_cte", "ansi", "WITH x AS (SELECT c1 FROM q.fixed) INSERT INTO {a} SELECT c1 FROM x"),
+    ("mixed_union", "ansi", "INSERT INTO {a} SELECT c1 FROM q.fixed UNION ALL SELECT c1 FROM {b}"),
 ]
 
 PLACEHOLDERS = ["a", "b", "c", "d", "e"]
